@@ -40,6 +40,7 @@ type Ctx struct {
 	P       *Prog
 	Obls    []*Obl
 	floors  map[string]int
+	floorsApplied bool
 	Funcs   map[string]bool // functions analysed
 	Sites   int             // call sites / instructions inspected
 	Notes   []string
@@ -138,7 +139,16 @@ func (c *Ctx) Finish(verifDir string, start time.Time, level string) int {
 		verifDir = filepath.Join(os.TempDir(), "verif-scratch")
 		os.MkdirAll(verifDir, 0o755)
 	}
-	// floors
+	c.ApplyFloors()
+	return c.finish(verifDir, knownDir, start, level)
+}
+
+// ApplyFloors turns unmet instance floors into undecided obligations (idempotent).
+func (c *Ctx) ApplyFloors() {
+	if c.floorsApplied {
+		return
+	}
+	c.floorsApplied = true
 	counts := map[string]int{}
 	for _, o := range c.Obls {
 		counts[o.Rule]++
@@ -157,7 +167,9 @@ func (c *Ctx) Finish(verifDir string, start time.Time, level string) int {
 	if len(c.Obls) == 0 {
 		c.add("anchor-floor", "no-obligations", token.NoPos, Undecided, "the check produced no obligation at all")
 	}
+}
 
+func (c *Ctx) finish(verifDir, knownDir string, start time.Time, level string) int {
 	known, err := loadKnown(knownDir)
 	if err != nil {
 		c.add("known-findings", "known-findings.json", token.NoPos, Undecided, "cannot read known-findings.json: "+err.Error())
